@@ -30,7 +30,15 @@ type pendOp struct {
 	addr any
 	site string
 	ci   *vshim.ChanInfo
+	// announced: a Lock() that found readers inside has been *called* (sync.RWMutex then makes
+	// every later RLock wait behind it) but has not acquired yet
+	announced bool
 }
+
+// KLockWait is the event kind of a writer announcing itself behind active readers (Go's
+// RWMutex is writer-preferring: from that step on new RLock calls block, which is what makes
+// recursive read-locking a deadlock).
+const KLockWait = 100
 
 // Thread is one controlled goroutine.
 type Thread struct {
@@ -108,7 +116,8 @@ type Exec struct {
 	running int
 	// lock model
 	wheld   map[any]int
-	rheld   map[any]map[int]bool
+	wpend   map[any]int // announced writer (thread id + 1) waiting for the readers to drain
+	rheld   map[any]map[int]int
 	lockVC  map[any][]int
 	rlockVC map[any][]int
 	// channel model
@@ -240,7 +249,7 @@ func onPoint(kind int, addr any, site string) {
 		// relevant as soon as two threads are seen on one mutex (then the exploration restarts)
 		x.note(op.addr, t.ID, true, site)
 		if !x.cfg.AllPoints && !relevantSites[site] {
-			free := x.wheld[op.addr] == 0 && (kind == vshim.KRLock || len(x.rheld[op.addr]) == 0)
+			free := x.wheld[op.addr] == 0 && x.wpend[op.addr] == 0 && (kind == vshim.KRLock || len(x.rheld[op.addr]) == 0)
 			if free {
 				x.apply(t, op)
 				return
@@ -420,6 +429,9 @@ func (x *Exec) apply(t *Thread, o *pendOp) {
 	switch o.kind {
 	case vshim.KLock:
 		x.wheld[o.addr] = t.ID + 1
+		if x.wpend[o.addr] == t.ID+1 {
+			delete(x.wpend, o.addr)
+		}
 		if v := x.lockVC[o.addr]; v != nil {
 			join(t.vc, v)
 		}
@@ -428,9 +440,9 @@ func (x *Exec) apply(t *Thread, o *pendOp) {
 		}
 	case vshim.KRLock:
 		if x.rheld[o.addr] == nil {
-			x.rheld[o.addr] = map[int]bool{}
+			x.rheld[o.addr] = map[int]int{}
 		}
-		x.rheld[o.addr][t.ID] = true
+		x.rheld[o.addr][t.ID]++
 		if v := x.lockVC[o.addr]; v != nil {
 			join(t.vc, v)
 		}
@@ -442,7 +454,11 @@ func (x *Exec) apply(t *Thread, o *pendOp) {
 		}
 		x.lockVC[o.addr] = v
 	case vshim.KRUnlock:
-		delete(x.rheld[o.addr], t.ID)
+		if x.rheld[o.addr][t.ID] > 1 {
+			x.rheld[o.addr][t.ID]--
+		} else {
+			delete(x.rheld[o.addr], t.ID)
+		}
 		v := clone(t.vc)
 		if old := x.rlockVC[o.addr]; old != nil {
 			join(v, old)
@@ -502,11 +518,16 @@ func (x *Exec) enabled() []entry {
 		o := t.pend
 		switch o.kind {
 		case vshim.KLock:
-			if x.wheld[o.addr] == 0 && len(x.rheld[o.addr]) == 0 {
+			if o.announced {
+				if len(x.rheld[o.addr]) == 0 {
+					out = append(out, entry{t.ID})
+				}
+			} else if x.wheld[o.addr] == 0 && x.wpend[o.addr] == 0 {
+				// free: acquire; readers inside: the step announces the writer (see runOnce)
 				out = append(out, entry{t.ID})
 			}
 		case vshim.KRLock:
-			if x.wheld[o.addr] == 0 {
+			if x.wheld[o.addr] == 0 && x.wpend[o.addr] == 0 {
 				out = append(out, entry{t.ID})
 			}
 		case vshim.KChanSend:
@@ -548,7 +569,7 @@ type ErrDivergence struct{ Msg string }
 
 func runOnce(cfg *Config, prefix []int) *Exec {
 	x := &Exec{cfg: cfg, byGid: map[int64]*Thread{}, arrive: make(chan *Thread, 64), running: -1,
-		wheld: map[any]int{}, rheld: map[any]map[int]bool{}, lockVC: map[any][]int{}, rlockVC: map[any][]int{},
+		wheld: map[any]int{}, wpend: map[any]int{}, rheld: map[any]map[int]int{}, lockVC: map[any][]int{}, rlockVC: map[any][]int{},
 		chClosed: map[any]bool{}, chVC: map[any][][]int{}, chCloseVC: map[any][]int{},
 		lastW: map[any]*access{}, reads: map[any]map[int]*access{}, raceSeen: map[string]bool{}, acc: map[any]*locInfo{}}
 	bodies := cfg.Setup() // runs uncontrolled (cur == nil)
@@ -607,6 +628,14 @@ func runOnce(cfg *Config, prefix []int) *Exec {
 			joint = e[1]
 		}
 		first := x.Threads[e[0]]
+		if len(e) == 1 && first.pend.kind == vshim.KLock && !first.pend.announced && len(x.rheld[first.pend.addr]) > 0 {
+			// Lock() called while readers are inside: the writer queues (it stays parked) and
+			// closes the door for new readers; the running thread does not change
+			first.pend.announced = true
+			x.wpend[first.pend.addr] = first.ID + 1
+			x.Events = append(x.Events, Event{Thread: e[0], Kind: KLockWait, Site: first.pend.site, Joint: -1})
+			continue
+		}
 		x.Events = append(x.Events, Event{Thread: e[0], Kind: first.pend.kind, Site: first.pend.site, Joint: joint})
 		for _, id := range e {
 			t := x.Threads[id]
@@ -740,6 +769,8 @@ func KindName(k int) string {
 		return "yield"
 	case vshim.KChanDone:
 		return "chan-done"
+	case KLockWait:
+		return "Lock-queued"
 	}
 	return fmt.Sprint(k)
 }
